@@ -81,7 +81,8 @@ def gen_range(rng, p, scale, kind=None):
     return [a, b]
 
 
-INT_FORMS = ("ilist", "i64", "i32", "u16")
+INT_FORMS = ("ilist", "i64", "i32", "u16", "i8", "u8", "i16")
+NARROW_TOP = {"i8": (60, 100, 127), "u8": (150, 200, 255), "i16": (16000, 16040, 32767), "u16": (32000, 32040, 60000)}
 FLOAT_FORMS = ("f64", "f64", "list", "f32")
 
 
@@ -106,9 +107,22 @@ def gen_fit_data(rng, p, scale):
             d.append([b, b + pers])
         dgms.append(d)
         if integer:
-            forms.append(rng.choice(INT_FORMS if all(q[0] >= 0 for q in d) else INT_FORMS[:3]))
+            forms.append(rng.choice(INT_FORMS[:4] if all(q[0] >= 0 for q in d) else INT_FORMS[:3]))
         else:
             forms.append(rng.choice(FLOAT_FORMS) if mixed or rng.random() < 0.3 else "f64")
+    if p >= 0.5 and scale == 1.0 and rng.random() < 0.12:
+        # data as a narrow integer array whose values sit near the top of the type: every coordinate and every
+        # difference is representable, sums of two coordinates are not
+        f_ = rng.choice(sorted(NARROW_TOP))
+        lo_, hi_, top_ = NARROW_TOP[f_]
+        dgms, forms = [], []
+        for _ in range(nd):
+            d = []
+            for _ in range(rng.randint(2, 5)):
+                b = rng.randint(lo_, hi_)
+                d.append([b, min(top_, b + rng.randint(0, 25))])
+            dgms.append(d)
+            forms.append(f_)
     # guarantee positive extent in birth and persistence
     flat = [q for d in dgms for q in d]
     def ext(f):
@@ -121,6 +135,9 @@ def gen_fit_data(rng, p, scale):
         q = [hi_b + 2 * p, hi_b + 2 * p + hi_p + 3 * p]
         if forms[0] in INT_FORMS:
             q = [int(math.ceil(q[0])) + 1, int(math.ceil(q[0])) + 1 + int(math.ceil(hi_p + 3 * p)) + 1]
+        if forms[0] in NARROW_TOP and q[1] > NARROW_TOP[forms[0]][2]:
+            lo_b = min(x[0] for x in flat)
+            q = [lo_b - 3, lo_b - 3 + int(math.ceil(hi_p)) + 2]          # extend downwards instead
         dgms[0].append(q)
     single = nd == 1 and rng.random() < 0.5
     data = {"dgms": dgms, "forms": forms, "single": single, "skew": rng.random() < 0.7}
@@ -145,7 +162,12 @@ def materialize_fit(d):
         if f in INT_FORMS:
             if not np.all(a == np.round(a)) or (f == "u16" and (a.min() < 0 or a.max() > 60000)) or np.abs(a).max() > 2 ** 30:
                 raise InvalidCase("integer form needs integer coordinates")
-            g = [[int(v) for v in row] for row in a] if f == "ilist" else a.astype({"i64": np.int64, "i32": np.int32, "u16": np.uint16}[f])
+            if f in ("i8", "u8", "i16"):
+                info_ = np.iinfo({"i8": np.int8, "u8": np.uint8, "i16": np.int16}[f])
+                if a.min() < info_.min or a.max() > info_.max:
+                    raise InvalidCase("value outside the integer type")
+            g = [[int(v) for v in row] for row in a] if f == "ilist" else a.astype(
+                {"i64": np.int64, "i32": np.int32, "u16": np.uint16, "i8": np.int8, "u8": np.uint8, "i16": np.int16}[f])
         elif f == "f32":
             g = a.astype(np.float32)
             a = g.astype(float)
@@ -199,7 +221,23 @@ def gen_case(rng, tier):
             p_of[k] = gen_pixel(rng, scale)
             ops.append({"inst": k, "op": "pixel_size=", "val": p_of[k]})
         elif kind == "fit":
-            ops.append({"inst": k, "op": "fit", "data": gen_fit_data(rng, p_of[k], scale)})
+            earlier = [o["data"] for o in ops if o["op"] == "fit" and o["inst"] == k]
+            if earlier and rng.random() < 0.4:
+                # a refit on the data of an earlier fit of this instance (after whatever happened in between), or on
+                # other data with the same extremes (same bounding box, different interior points)
+                import copy as _copy
+                d_ = _copy.deepcopy(rng.choice(earlier))
+                if rng.random() < 0.5 and all(f in ("f64", "list") for f in d_["forms"]):
+                    flat_ = [q for x in d_["dgms"] for q in x]
+                    lo_b, hi_b = min(q[0] for q in flat_), max(q[0] for q in flat_)
+                    lo_p, hi_p = min(q[1] - q[0] for q in flat_), max(q[1] - q[0] for q in flat_)
+                    b_ = lo_b + (hi_b - lo_b) * rng.random()
+                    p_ = lo_p + (hi_p - lo_p) * rng.random()
+                    if p_ >= 0:
+                        d_["dgms"][0].append([b_, b_ + p_])
+                ops.append({"inst": k, "op": "fit", "data": d_})
+            else:
+                ops.append({"inst": k, "op": "fit", "data": gen_fit_data(rng, p_of[k], scale)})
         elif kind == "re-birth":
             ops.append({"inst": k, "op": "reassign", "which": "birth_range"})
         else:
